@@ -488,8 +488,10 @@ func (self *Runtime) reattachToPipestance(psid string, pipestancePath string,
 		if err != nil {
 			return nil, &PipestancePathError{pipestancePath}
 		}
-		// Check if _invocation has changed.
-		if !bytes.Equal(src, data) {
+		// Check if the source has changed.  For an invocation, changes
+		// to comments or formatting are fine: what it denotes is
+		// compared with the recorded source below.
+		if srcType == MroSourceFile && !bytes.Equal(src, data) {
 			return nil, &PipestanceInvocationError{psid, invocationPath}
 		}
 	}
